@@ -315,9 +315,12 @@ def ev(node, env, fmts, W, facts):
                 if not fits(v, s, W):
                     raise Unjudged("abs operand subtree does not fit")
             out = {abs(v) for v in vals}
+            # the result is never negative: it fits when the width holds it
+            # as an unsigned number (abs(-2**31) = 2**31 fits 32 bits)
             for v in out:
-                if not fits(v, signed, W):
+                if not fits(v, False, W):
                     raise Unjudged("abs result does not fit")
+            signed_here = False
             if any(v < 0 for v in vals):
                 facts.add("abs-of-negative")
                 if has_and(node[1]):
